@@ -19,7 +19,7 @@ def mc(ctx):
 def validate(ctx, paths):
     shards = []
     for p in paths:
-        shards += ctx.shard(p, 4 if ctx.quick else 16)
+        shards += ctx.shard(p, 8 if ctx.quick else 16)
     results = ctx.tlc_trace_many("Trace_C04", shards, timeout=1500)
     kinds = {}
     for p in paths:
@@ -39,7 +39,8 @@ def run(ctx):
     q = ctx.quick
     jobs = [
         ("c04", ["--mode", "exhaustive", "--maxw", 4 if q else 6], "exhaustive.ndjson"),
-        ("c04", ["--mode", "wide", "--n", 6000 if q else 150000], "wide.ndjson"),
+        ("c04", ["--mode", "boundary", "--skipwidediv", 1 if q else 0], "boundary.ndjson"),
+        ("c04", ["--mode", "wide", "--n", 4000 if q else 150000], "wide.ndjson"),
         ("c04", ["--mode", "trees", "--n", 2500 if q else 60000], "trees.ndjson"),
         ("c04", ["--mode", "derived", "--n", 1500 if q else 30000], "derived.ndjson"),
     ]
